@@ -1,8 +1,15 @@
 //! C16, type level: with the `sync` feature the public types must be `Send + Sync`.  This crate contains nothing but the
 //! obligations; if the library builds with `sync` but this crate does not, a type has lost the guarantee.
 
+#[cfg(feature = "obligations")]
 fn both<T: Send + Sync>() {}
 
+/// the library is linked in any case
+pub fn library_present() -> usize {
+    jmespath::DEFAULT_RUNTIME.get_function("abs").is_some() as usize
+}
+
+#[cfg(feature = "obligations")]
 pub fn obligations() {
     both::<jmespath::Expression<'static>>();
     both::<jmespath::Runtime>();
